@@ -285,19 +285,19 @@ func globalDefs() string {
 
 // ---------------------------------------------------------------- JSON value trees
 
-type jnode struct {
+type c14jnode struct {
 	kind string // null bool num str arr obj
 	b    bool
 	num  string
 	s    string
-	arr  []*jnode
+	arr  []*c14jnode
 	keys []string
-	vals []*jnode
+	vals []*c14jnode
 }
 
 var intLit = regexp.MustCompile(`^-?[0-9]+$`)
 
-func parseTree(data []byte) (*jnode, error) {
+func c14parseTree(data []byte) (*c14jnode, error) {
 	d := json.NewDecoder(bytes.NewReader(data))
 	d.UseNumber()
 	n, err := parseNode(d)
@@ -310,23 +310,23 @@ func parseTree(data []byte) (*jnode, error) {
 	return n, nil
 }
 
-func parseNode(d *json.Decoder) (*jnode, error) {
+func parseNode(d *json.Decoder) (*c14jnode, error) {
 	tok, err := d.Token()
 	if err != nil {
 		return nil, err
 	}
 	switch v := tok.(type) {
 	case nil:
-		return &jnode{kind: "null"}, nil
+		return &c14jnode{kind: "null"}, nil
 	case bool:
-		return &jnode{kind: "bool", b: v}, nil
+		return &c14jnode{kind: "bool", b: v}, nil
 	case json.Number:
-		return &jnode{kind: "num", num: string(v)}, nil
+		return &c14jnode{kind: "num", num: string(v)}, nil
 	case string:
-		return &jnode{kind: "str", s: v}, nil
+		return &c14jnode{kind: "str", s: v}, nil
 	case json.Delim:
 		if v == '[' {
-			n := &jnode{kind: "arr"}
+			n := &c14jnode{kind: "arr"}
 			for d.More() {
 				c, err := parseNode(d)
 				if err != nil {
@@ -338,7 +338,7 @@ func parseNode(d *json.Decoder) (*jnode, error) {
 			return n, err
 		}
 		if v == '{' {
-			n := &jnode{kind: "obj"}
+			n := &c14jnode{kind: "obj"}
 			for d.More() {
 				kt, err := d.Token()
 				if err != nil {
@@ -362,7 +362,7 @@ func parseNode(d *json.Decoder) (*jnode, error) {
 	return nil, fmt.Errorf("unexpected token %v", tok)
 }
 
-func (n *jnode) coq() string {
+func (n *c14jnode) coq() string {
 	switch n.kind {
 	case "null":
 		return "JNull"
@@ -392,7 +392,7 @@ func (n *jnode) coq() string {
 	return "JNull"
 }
 
-func (n *jnode) bytes(b *bytes.Buffer) {
+func (n *c14jnode) bytes(b *bytes.Buffer) {
 	switch n.kind {
 	case "null":
 		b.WriteString("null")
@@ -473,7 +473,7 @@ func coqVal(v reflect.Value) string {
 		if err != nil {
 			return "(VIface (Some JNumBad))"
 		}
-		n, err := parseTree(data)
+		n, err := c14parseTree(data)
 		if err != nil {
 			return "(VIface (Some JNumBad))"
 		}
@@ -492,7 +492,7 @@ func coqVal(v reflect.Value) string {
 	return "VOpaque"
 }
 
-func coqMachine(m *swap.SwapStateMachine) string { return coqVal(reflect.ValueOf(m).Elem()) }
+func c14coqMachine(m *swap.SwapStateMachine) string { return coqVal(reflect.ValueOf(m).Elem()) }
 
 // ---------------------------------------------------------------- generators
 
@@ -796,7 +796,7 @@ func getResult(m *swap.SwapStateMachine, err error) string {
 	if err != nil || m == nil {
 		return "GErr"
 	}
-	return "(GOk " + coqMachine(m) + ")"
+	return "(GOk " + c14coqMachine(m) + ")"
 }
 
 func allValidUTF8(v reflect.Value) bool {
@@ -827,7 +827,7 @@ func allValidUTF8(v reflect.Value) bool {
 // ---------------------------------------------------------------- malformed records
 
 // collectLeaves gathers the string leaves stored under one of the given keys
-func collectLeaves(n *jnode, keys map[string]bool, out *[]*jnode) {
+func collectLeaves(n *c14jnode, keys map[string]bool, out *[]*c14jnode) {
 	switch n.kind {
 	case "obj":
 		for i, k := range n.keys {
@@ -844,8 +844,8 @@ func collectLeaves(n *jnode, keys map[string]bool, out *[]*jnode) {
 }
 
 // targeted mutations of the two custom leaf codecs (swap id hex, []byte base64)
-func mutateCodecLeaf(r *Rng, n *jnode) string {
-	var ids, b64s []*jnode
+func mutateCodecLeaf(r *Rng, n *c14jnode) string {
+	var ids, b64s []*c14jnode
 	collectLeaves(n, map[string]bool{"swap_id": true}, &ids)
 	collectLeaves(n, map[string]bool{"private_key": true, "next_message": true}, &b64s)
 	if len(ids) > 0 && (r.Bool() || len(b64s) == 0) {
@@ -897,7 +897,7 @@ func mutateCodecLeaf(r *Rng, n *jnode) string {
 	return "none"
 }
 
-func mutateTree(r *Rng, n *jnode, depth int) string {
+func mutateTree(r *Rng, n *c14jnode, depth int) string {
 	// returns the name of the mutation applied (exactly one per call chain)
 	if depth == 0 && r.Chance(25) {
 		if m := mutateCodecLeaf(r, n); m != "none" {
@@ -916,7 +916,7 @@ func mutateTree(r *Rng, n *jnode, depth int) string {
 			n.vals = append(n.vals[:i:i], n.vals[i+1:]...)
 			return "drop-key"
 		case 1:
-			n.vals[i] = &jnode{kind: "null"}
+			n.vals[i] = &c14jnode{kind: "null"}
 			return "null"
 		case 2:
 			n.keys[i] = strings.ToUpper(n.keys[i])
@@ -926,38 +926,38 @@ func mutateTree(r *Rng, n *jnode, depth int) string {
 			return "key-title"
 		case 4:
 			n.keys = append(n.keys, PickS(r, []string{"unknown_key", "States", "LastErr", "retries", "-", ""}))
-			n.vals = append(n.vals, &jnode{kind: PickS(r, []string{"null", "str", "obj", "arr"}), s: "x"})
+			n.vals = append(n.vals, &c14jnode{kind: PickS(r, []string{"null", "str", "obj", "arr"}), s: "x"})
 			return "extra-key"
 		case 5:
-			n.vals[i] = &jnode{kind: "num", num: PickS(r, []string{"0", "1", "-1", "255", "256", "4294967295", "4294967296", "9223372036854775807",
+			n.vals[i] = &c14jnode{kind: "num", num: PickS(r, []string{"0", "1", "-1", "255", "256", "4294967295", "4294967296", "9223372036854775807",
 				"9223372036854775808", "-9223372036854775808", "-9223372036854775809", "18446744073709551615", "18446744073709551616", "2147483648"})}
 			return "num-boundary"
 		case 6:
-			n.vals[i] = &jnode{kind: "num", num: PickS(r, []string{"1.5", "1e3", "1.0", "0.0", "1E2", "-2.5e-1"})}
+			n.vals[i] = &c14jnode{kind: "num", num: PickS(r, []string{"1.5", "1e3", "1.0", "0.0", "1E2", "-2.5e-1"})}
 			return "num-float"
 		case 7:
-			n.vals[i] = &jnode{kind: "str", s: PickS(r, []string{"", "abc", "00", "zz", "AAECAw==", "AAECAw=", "AAEC\nAw==", "AA==", "AAE=", "AAE", "A===", "AA=A", "!!!!",
+			n.vals[i] = &c14jnode{kind: "str", s: PickS(r, []string{"", "abc", "00", "zz", "AAECAw==", "AAECAw=", "AAEC\nAw==", "AA==", "AAE=", "AAE", "A===", "AA=A", "!!!!",
 				strings.Repeat("ab", 32), strings.Repeat("AB", 32), strings.Repeat("ab", 31), strings.Repeat("ab", 31) + "a", strings.Repeat("zz", 32), "-_-_"})}
 			return "str-odd"
 		case 8:
-			n.vals[i] = &jnode{kind: "bool", b: r.Bool()}
+			n.vals[i] = &c14jnode{kind: "bool", b: r.Bool()}
 			return "bool"
 		case 9:
-			n.vals[i] = &jnode{kind: "arr", arr: []*jnode{{kind: "num", num: PickS(r, []string{"1", "255", "256", "-1"})}, {kind: PickS(r, []string{"num", "null", "str"}), num: "7", s: "x"}}}
+			n.vals[i] = &c14jnode{kind: "arr", arr: []*c14jnode{{kind: "num", num: PickS(r, []string{"1", "255", "256", "-1"})}, {kind: PickS(r, []string{"num", "null", "str"}), num: "7", s: "x"}}}
 			return "array"
 		case 10:
-			n.vals[i] = &jnode{kind: "obj"}
+			n.vals[i] = &c14jnode{kind: "obj"}
 			return "empty-obj"
 		case 11:
-			n.vals[i] = &jnode{kind: "arr"}
+			n.vals[i] = &c14jnode{kind: "arr"}
 			return "empty-arr"
 		default:
-			n.vals[i] = &jnode{kind: "obj", keys: []string{"swap_id", "message"}, vals: []*jnode{{kind: "null"}, {kind: "str", s: "m"}}}
+			n.vals[i] = &c14jnode{kind: "obj", keys: []string{"swap_id", "message"}, vals: []*c14jnode{{kind: "null"}, {kind: "str", s: "m"}}}
 			return "obj"
 		}
 	}
 	if n.kind == "arr" {
-		n.arr = append(n.arr, &jnode{kind: "num", num: "300"})
+		n.arr = append(n.arr, &c14jnode{kind: "num", num: "300"})
 		return "array-elem"
 	}
 	return "none"
@@ -987,7 +987,7 @@ func runC14(args []string) error {
 	// one record through the real store: UpdateData, raw bytes, GetData
 	record := func(m *swap.SwapStateMachine, kind string, extra map[string]interface{}) error {
 		beginCase()
-		mterm := coqMachine(m) // before the store sees it
+		mterm := c14coqMachine(m) // before the store sees it
 		valid := allValidUTF8(reflect.ValueOf(m).Elem())
 		uerr := st.st.UpdateData(m)
 		var rawTerm string = "None"
@@ -995,7 +995,7 @@ func runC14(args []string) error {
 		if m.SwapId != nil {
 			idStr = m.SwapId.String()
 			if raw := st.raw(m.SwapId[:]); raw != nil {
-				t, err := parseTree(raw)
+				t, err := c14parseTree(raw)
 				if err != nil {
 					return fmt.Errorf("stored bytes are not JSON: %v", err)
 				}
@@ -1094,7 +1094,7 @@ func runC14(args []string) error {
 			}
 		}
 		data, _ := json.Marshal(m)
-		tree, err := parseTree(data)
+		tree, err := c14parseTree(data)
 		if err != nil {
 			return err
 		}
@@ -1104,7 +1104,7 @@ func runC14(args []string) error {
 		}
 		var buf bytes.Buffer
 		tree.bytes(&buf)
-		tree2, err := parseTree(buf.Bytes())
+		tree2, err := c14parseTree(buf.Bytes())
 		if err != nil {
 			return fmt.Errorf("harness wrote invalid JSON: %v", err)
 		}
@@ -1151,7 +1151,7 @@ func runC14(args []string) error {
 					m.Data.LastMessage = &swap.CancelMessage{Message: "poison"}
 					poisoned = true
 				}
-				mt := coqMachine(m)
+				mt := c14coqMachine(m)
 				jb, _ := json.Marshal(m)
 				err := s2.st.UpdateData(m)
 				ops = append(ops, fmt.Sprintf("(OUpdate %s %s)", mt, CoqBool(err != nil)))
@@ -1179,7 +1179,7 @@ func runC14(args []string) error {
 				} else {
 					xs := make([]string, len(l))
 					for j, m := range l {
-						xs[j] = coqMachine(m)
+						xs[j] = c14coqMachine(m)
 					}
 					ops = append(ops, "(OList (Some "+CoqList(xs)+"))")
 				}
